@@ -50,6 +50,8 @@ func init() {
 			"phase load+get: main alphabet (13 tokens incl. null / metadata-less / url-less / invalid-version entries) and semver-precedence alphabet (10 tokens), YAML and JSON, " +
 			"each loaded index queried with every query of the phase; phase pull: ChartDownloader.ResolveChartVersion; phase resolve: Manager.Update -> internal/resolver.Resolve -> Chart.lock; " +
 			"urls alphabet (3 versions x 4 spellings of the urls field: URL, key absent, null, empty list) through load+get, pull and resolve in YAML and JSON; " +
+			"hyphen/plus alphabet (stable versions with '-' inside the build metadata, pre-releases carrying build metadata) through load+get, pull and resolve; " +
+			"histories on ONE path: load, then either modify the returned object with each public mutator or replace the file (every ordered pair of different files, mtime restored/newer/older), then load again - the second result is compared with an independent reading of the bytes then in the file; " +
 			"phase registry: every descending tag list x every query. distinct = (entry point, alphabet, spelling, entry list); every list is non-trivial (the empty list is the only degenerate one); " +
 			"evaluations = oracle evaluations (one per load, one per (list, query))",
 		Run:    run,
@@ -60,6 +62,7 @@ func init() {
 			"ties in precedence (1.2.0 vs 1.2.0+b1 vs 1.2, duplicate versions) may be resolved either way unless the query string is identical to one of them",
 			"an entry is downloadable iff its urls list has at least one element: key absent, 'urls: null' and 'urls: []' all mean not downloadable; dependency resolution must lock the highest DOWNLOADABLE satisfying version (error if none), 'helm pull' may refuse when the best match is not downloadable; Get must not filter on urls",
 			"an unparsable constraint is satisfied by nothing, so an error is expected",
+			"a loaded index is a function of the bytes in the file at the time of the call: neither what an earlier caller did to the object it got back, nor an earlier content of the same path may show (file size and mtime are controlled with os.Chtimes, never read from the clock)",
 			"internal/resolver cannot be imported from outside helm's module: Resolve is driven through downloader.Manager.Update with SkipUpdate, an in-memory getter and a cached index file; the observed value is dependencies[0].version of the written Chart.lock",
 			"registry.GetTagMatchingVersionOrConstraint is called with tag lists that are valid strict semver in non-increasing precedence, which is what registry.Client.Tags hands it",
 		},
@@ -70,6 +73,11 @@ func init() {
 			"resolve:urlless-top:nokey", "resolve:urlless-top:nullurls", "resolve:urlless-top:emptyurls",
 			"resolve:urlless-only:nokey", "resolve:urlless-only:nullurls", "resolve:urlless-only:emptyurls",
 			"pull:urlless-refused:nokey", "pull:urlless-refused:nullurls", "pull:urlless-refused:emptyurls",
+			"get:stable-hyphen-build", "get:stable-hyphen-build-only", "get:prerelease-with-build-passed-over",
+			"pull:stable-hyphen-build", "pull:stable-hyphen-build-only",
+			"history:alias:drop-first", "history:alias:delete-chart", "history:alias:mustadd-newer", "history:alias:mustadd-older", "history:alias:merge-newer",
+			"history:alias:edit-version", "history:alias:sort-ascending", "history:alias:clear-urls",
+			"history:rewrite:same-size:same-mtime", "history:rewrite:same-size:newer-mtime", "history:rewrite:same-size:older-mtime", "history:rewrite:diff-size:same-mtime",
 			"registry:exact", "registry:constraint", "registry:error",
 		},
 	})
@@ -89,6 +97,11 @@ var alphabets = map[string][]string{
 		"1.0.0~nokey", "1.2.0~nokey", "2.0.0~nokey",
 		"1.0.0~nullurls", "1.2.0~nullurls", "2.0.0~nullurls",
 		"1.0.0~emptyurls", "1.2.0~emptyurls", "2.0.0~emptyurls"},
+	// '-' and '+' in the "wrong" part: stable versions whose build metadata holds a
+	// hyphen, pre-releases that carry build metadata (with and without a hyphen)
+	"hyph": {"1.2.0", "1.3.0", "1.3.0+b7", "1.3.0+git-4f2a", "0.8.0+build-7", "1.4.0-rc.1", "1.4.0-rc.1+b7", "1.4.0-rc.1+git-4f2a"},
+	// reduced alphabet for rewrite histories (file replaced between two loads)
+	"hist": {"1.0.0", "1.2.0", "2.0.0", "1.10.0", "2.0.0-rc.1", "bad", "null", "nourls"},
 }
 
 var queries = map[string][]string{
@@ -100,6 +113,8 @@ var queries = map[string][]string{
 	// urls alphabet: Get / pull queries and dependency ranges
 	"urls":         {"*", "", "1.2.0", "^1.0.0", ">1.0.0 <2.0.0", "9.9.9"},
 	"resolve-urls": {"*", "1.2.0", "^1.0.0", ">1.0.0 <2.0.0", "~1.2", "9.9.9"},
+	"hyph":         {"", "*", "1.3.0", "1.3.0+git-4f2a", "^1.0.0", ">=1.0.0-0", "9.9.9"},
+	"resolve-hyph": {"*", "1.3.0", "^1.0.0", ">=1.0.0-0"},
 }
 
 const urllessVersion = "3.0.0"
@@ -356,9 +371,22 @@ func must(err error) {
 
 // loadReal writes the file and calls repo.LoadIndexFile.
 func loadReal(list []string, spelling string) (idx *repo.IndexFile, errS, panicS string) {
-	s := getScratch()
-	p := filepath.Join(s.idxDir, "index."+spelling)
+	p := freshPath(spelling)
+	defer os.Remove(p)
 	must(os.WriteFile(p, render(list, spelling), 0o644))
+	return loadPath(p)
+}
+
+var pathSeq int
+
+// freshPath: every case gets a path of its own, so nothing that the code under
+// test may remember about a path can leak from one case into the next.
+func freshPath(spelling string) string {
+	pathSeq++
+	return filepath.Join(getScratch().idxDir, fmt.Sprintf("i%d.%s", pathSeq, spelling))
+}
+
+func loadPath(p string) (idx *repo.IndexFile, errS, panicS string) {
 	err, pan := safely(func() error {
 		var e error
 		idx, e = repo.LoadIndexFile(p)
@@ -626,10 +654,17 @@ type caseSpec struct {
 	List     []string `json:"list"`
 	Spelling string   `json:"spelling,omitempty"`
 	Query    string   `json:"query"`
+	// histories on one path (entry "history"): load List, then Step, then load again
+	Step  string   `json:"step,omitempty"`  // mutate:<mutator> | rewrite:<mtime mode>
+	List2 []string `json:"list2,omitempty"` // rewrite: the entries of the replacing file
 }
 
 func (cs caseSpec) String() string {
-	return fmt.Sprintf("%s/%s/%s[%s]?%s", cs.Entry, cs.Alpha, cs.Spelling, strings.Join(cs.List, ","), cs.Query)
+	s := fmt.Sprintf("%s/%s/%s[%s]?%s", cs.Entry, cs.Alpha, cs.Spelling, strings.Join(cs.List, ","), cs.Query)
+	if cs.Entry == "history" {
+		s += fmt.Sprintf(" %s [%s]", cs.Step, strings.Join(cs.List2, ","))
+	}
+	return s
 }
 
 // runCase executes exactly one case; kind "" = passes.
@@ -671,8 +706,133 @@ func runCase(cs caseSpec) (kind, what string) {
 		}
 		k, w, _ := checkRegistry(cs.List, cs.Query)
 		return k, w
+	case "history":
+		k, w, _ := runHistory(cs)
+		return k, w
 	}
 	return "", ""
+}
+
+// ---------- histories on one path ----------
+
+var (
+	histMutators = []string{"drop-first", "delete-chart", "mustadd-newer", "mustadd-older", "merge-newer", "edit-version", "sort-ascending", "clear-urls"}
+	histModes    = []string{"same-mtime", "newer-mtime", "older-mtime"}
+	histT0       = time.Unix(1700000000, 0)
+	histQueries  = []string{"", "*", "9.0.0"}
+)
+
+// mutate changes the object a caller got back from LoadIndexFile using only
+// the public surface of IndexFile (fields, MustAdd, Merge, the sort interface).
+func mutate(idx *repo.IndexFile, m string) (changed bool) {
+	safely(func() error {
+		if idx == nil || idx.Entries == nil {
+			return nil
+		}
+		vs := idx.Entries[chartName]
+		newer := &chart.Metadata{Name: chartName, Version: "9.0.0", APIVersion: "v2"}
+		switch m {
+		case "drop-first":
+			if len(vs) > 0 {
+				idx.Entries[chartName] = vs[1:]
+				changed = true
+			}
+		case "delete-chart":
+			if len(vs) > 0 {
+				delete(idx.Entries, chartName)
+				changed = true
+			}
+		case "mustadd-newer":
+			changed = idx.MustAdd(newer, chartName+"-9.0.0.tgz", repoURL, "dnew") == nil
+		case "mustadd-older":
+			changed = idx.MustAdd(&chart.Metadata{Name: chartName, Version: "0.0.1", APIVersion: "v2"}, chartName+"-0.0.1.tgz", repoURL, "dold") == nil
+		case "merge-newer":
+			o := repo.NewIndexFile()
+			if o.MustAdd(newer, chartName+"-9.0.0.tgz", repoURL, "dnew") == nil {
+				idx.Merge(o)
+				changed = true
+			}
+		case "edit-version":
+			if len(vs) > 0 && vs[0] != nil && vs[0].Metadata != nil {
+				vs[0].Version = "9.9.9"
+				changed = true
+			}
+		case "sort-ascending":
+			if len(vs) > 1 {
+				sort.Sort(vs)
+				changed = true
+			}
+		case "clear-urls":
+			if len(vs) > 0 && vs[0] != nil && len(vs[0].URLs) > 0 {
+				vs[0].URLs = nil
+				changed = true
+			}
+		}
+		return nil
+	})
+	return changed
+}
+
+// runHistory: write List to a fresh path (mtime pinned), load it, perform Step,
+// load the same path again. The second result must be what an independent
+// reading of the bytes that are in the file at that moment says. info is for
+// the vacuity floors: changed|noop (mutate), same-size|diff-size (rewrite).
+func runHistory(cs caseSpec) (kind, what, info string) {
+	sp := cs.Spelling
+	if sp != "json" {
+		sp = "yaml"
+	}
+	p := freshPath(sp)
+	defer os.Remove(p)
+	b1 := render(cs.List, sp)
+	must(os.WriteFile(p, b1, 0o644))
+	must(os.Chtimes(p, histT0, histT0))
+	idx1, e, pn := loadPath(p)
+	if k, _, _ := checkLoad(cs.List, idx1, e, pn); k != "" {
+		return "", "", "first-load-fails" // reported under entry point load
+	}
+	expectList := cs.List
+	desc := fmt.Sprintf("one path: file (%s) with entries [%s] is loaded", sp, strings.Join(cs.List, ", "))
+	switch {
+	case strings.HasPrefix(cs.Step, "mutate:"):
+		m := strings.TrimPrefix(cs.Step, "mutate:")
+		info = "noop"
+		if mutate(idx1, m) {
+			info = "changed"
+		}
+		desc += fmt.Sprintf(", the caller modifies the returned object (%s), the unchanged file is loaded again: ", m)
+	case strings.HasPrefix(cs.Step, "rewrite:"):
+		mode := strings.TrimPrefix(cs.Step, "rewrite:")
+		b2 := render(cs.List2, sp)
+		must(os.WriteFile(p, b2, 0o644))
+		t := histT0
+		switch mode {
+		case "newer-mtime":
+			t = t.Add(time.Second)
+		case "older-mtime":
+			t = t.Add(-time.Second)
+		}
+		must(os.Chtimes(p, t, t))
+		info = "diff-size"
+		if len(b1) == len(b2) {
+			info = "same-size"
+		}
+		expectList = cs.List2
+		desc += fmt.Sprintf(", the file is replaced by entries [%s] (%s, %s) and loaded again: ", strings.Join(cs.List2, ", "), info, mode)
+	default:
+		return "", "", ""
+	}
+	idx2, e, pn := loadPath(p)
+	if k, w, _ := checkLoad(expectList, idx2, e, pn); k != "" {
+		return k, desc + "second LoadIndexFile: " + w, info
+	}
+	cands := validCands(expectList)
+	for _, q := range histQueries {
+		if k, w, _ := checkGet(idx2, cands, q); k != "" {
+			return "get-" + k, desc + w, info
+		}
+	}
+	return "", "", info
 }
 
 var memo = map[string]string{}
@@ -690,6 +850,9 @@ func failKind(cs caseSpec) string {
 func (cs caseSpec) with(f func(*caseSpec)) caseSpec {
 	n := cs
 	n.List = append([]string{}, cs.List...)
+	if cs.List2 != nil {
+		n.List2 = append([]string{}, cs.List2...)
+	}
 	f(&n)
 	return n
 }
@@ -705,30 +868,51 @@ func minimise(cs caseSpec, kind string) caseSpec {
 		}
 		return false
 	}
-	if cur.Entry != "load" && cur.Query != "*" {
+	if cur.Entry != "load" && cur.Entry != "history" && cur.Query != "*" {
 		try(cur.with(func(n *caseSpec) { n.Query = "*" }))
 	}
-	for changed := true; changed; {
-		changed = false
-		for i := range cur.List {
-			if try(cur.with(func(n *caseSpec) { n.List = append(n.List[:i], n.List[i+1:]...) })) {
-				changed = true
-				break
+	shrink := func(get func(*caseSpec) *[]string) {
+		for changed := true; changed; {
+			changed = false
+			for i := range *get(&cur) {
+				if try(cur.with(func(n *caseSpec) { l := get(n); *l = append((*l)[:i], (*l)[i+1:]...) })) {
+					changed = true
+					break
+				}
+			}
+		}
+		// A token may only be replaced by a simpler plain valid version (towards the
+		// well-formed baseline): putting an odd entry shape (null, nometa, bad ...)
+		// in could turn the case into a different defect with the same symptom.
+		for i := range *get(&cur) {
+			for _, tok := range alphabets[cur.Alpha] {
+				if tok == (*get(&cur))[i] {
+					break
+				}
+				if plainVersion(tok) && try(cur.with(func(n *caseSpec) { (*get(n))[i] = tok })) {
+					break
+				}
 			}
 		}
 	}
-	// A token may only be replaced by a simpler plain valid version (towards the
-	// well-formed baseline): putting an odd entry shape (null, nometa, bad ...)
-	// in could turn the case into a different defect with the same symptom.
-	for i := range cur.List {
-		for _, tok := range alphabets[cur.Alpha] {
-			if tok == cur.List[i] {
-				break
-			}
-			if plainVersion(tok) && try(cur.with(func(n *caseSpec) { n.List[i] = tok })) {
-				break
+	if cur.Entry == "history" && strings.HasPrefix(cur.Step, "rewrite:") {
+		// first drop the same position from both files (keeps their size relation)
+		for changed := true; changed; {
+			changed = false
+			for i := 0; i < len(cur.List) && i < len(cur.List2); i++ {
+				if try(cur.with(func(n *caseSpec) {
+					n.List = append(n.List[:i], n.List[i+1:]...)
+					n.List2 = append(n.List2[:i], n.List2[i+1:]...)
+				})) {
+					changed = true
+					break
+				}
 			}
 		}
+	}
+	shrink(func(n *caseSpec) *[]string { return &n.List })
+	if cur.Entry == "history" && strings.HasPrefix(cur.Step, "rewrite:") {
+		shrink(func(n *caseSpec) *[]string { return &n.List2 })
 	}
 	if cur.Spelling == "json" {
 		try(cur.with(func(n *caseSpec) { n.Spelling = "yaml" }))
@@ -751,6 +935,22 @@ func keyOf(cs caseSpec, kind string) string {
 	shape := strings.Join(toks, "+")
 	if shape == "" {
 		shape = "none"
+	}
+	if cs.Entry == "history" {
+		if strings.HasPrefix(cs.Step, "rewrite:") {
+			// one class per (mtime mode, size relation, symptom): the pair of files is
+			// in the message and the replay, every same-size pair would be a key otherwise
+			sp := cs.Spelling
+			if sp != "json" {
+				sp = "yaml"
+			}
+			rel := "diff-size"
+			if len(render(cs.List, sp)) == len(render(cs.List2, sp)) {
+				rel = "same-size"
+			}
+			return core.SanitizeKey("history/" + cs.Step + "/" + rel + "/" + kind)
+		}
+		return core.SanitizeKey("history/" + cs.Step + "/" + kind + "/" + shape)
 	}
 	k := cs.Entry + "/" + kind + "/" + shape
 	if cs.Entry != "load" {
@@ -818,6 +1018,31 @@ func enumLists(toks []string, maxLen int, f func(list []string)) {
 	}
 }
 
+// noteHyphenFloors records, for an empty-version query answered with acc, that
+// the highest stable version carries a hyphen in its build metadata (also as the
+// only stable entry) and that pre-releases with build metadata were passed over.
+func noteHyphenFloors(c *core.Ctx, entry string, cands []cand, acc []int) {
+	best := cands[acc[0]].Version
+	if i := strings.IndexByte(best, '+'); i >= 0 && strings.Contains(best[i:], "-") && len(acc) == 1 {
+		c.Floor(entry + ":stable-hyphen-build")
+		stable := 0
+		for _, cd := range cands {
+			if v, ok := parseSV(cd.Version); ok && v.stable() {
+				stable++
+			}
+		}
+		if stable == 1 {
+			c.Floor(entry + ":stable-hyphen-build-only")
+		}
+	}
+	bv, _ := parseSV(best)
+	for _, cd := range cands {
+		if v, ok := parseSV(cd.Version); ok && !v.stable() && strings.Contains(cd.Version, "+") && cmpSV(v, bv) > 0 {
+			c.Floor(entry + ":prerelease-with-build-passed-over")
+		}
+	}
+}
+
 func has(list []string, tok ...string) bool {
 	for _, x := range list {
 		for _, t := range tok {
@@ -831,11 +1056,14 @@ func has(list []string, tok ...string) bool {
 
 func run(c *core.Ctx) {
 	defer cleanupScratch()
-	type bounds struct{ main, prec, tags, pull, resolve, urls int }
-	b := bounds{main: 4, prec: 4, tags: 4, pull: 3, resolve: 3, urls: 3}
+	type bounds struct{ main, prec, tags, pull, resolve, urls, hyph, hyphVia, alias, rw1, rw2 int }
+	b := bounds{main: 4, prec: 4, tags: 4, pull: 3, resolve: 3, urls: 3, hyph: 4, hyphVia: 3, alias: 3, rw1: 2, rw2: 2}
 	if c.Thorough() {
-		b = bounds{main: 5, prec: 5, tags: 6, pull: 4, resolve: 4, urls: 4}
+		b = bounds{main: 5, prec: 5, tags: 6, pull: 4, resolve: 4, urls: 4, hyph: 5, hyphVia: 4, alias: 4, rw1: 3, rw2: 2}
 	}
+	c.Bound("hyphen/plus alphabet (8 tokens), load+get YAML and JSON: max entries per chart; via pull / resolve", fmt.Sprintf("%d; %d", b.hyph, b.hyphVia))
+	c.Bound("aliasing histories (load, mutate returned object with each of 8 public mutators, load again), main alphabet, YAML and JSON: max entries", fmt.Sprint(b.alias))
+	c.Bound("rewrite histories (load, replace file, load again) x 3 mtime modes, hist alphabet (8 tokens): max entries first file / second file", fmt.Sprintf("%d/%d", b.rw1, b.rw2))
 	c.Bound("urls alphabet (3 versions x {url, key absent, urls: null, urls: []}), load+get / pull / resolve, YAML and JSON: max entries per chart", fmt.Sprint(b.urls))
 	c.Bound("urls alphabet through pull / resolve in the JSON spelling: max entries per chart", "3")
 	c.Bound("urls alphabet size; queries get+pull / resolve", fmt.Sprintf("%d; %d/%d", len(alphabets["urls"]), len(queries["urls"]), len(queries["resolve-urls"])))
@@ -859,7 +1087,7 @@ func run(c *core.Ctx) {
 	}
 
 	// Phase 1: LoadIndexFile + Get
-	for _, alpha := range []string{"main", "prec", "urls"} {
+	for _, alpha := range []string{"main", "prec", "urls", "hyph"} {
 		if !only("load") && !only("get") {
 			break
 		}
@@ -869,6 +1097,8 @@ func run(c *core.Ctx) {
 			maxLen = b.prec
 		case "urls":
 			maxLen = b.urls
+		case "hyph":
+			maxLen = b.hyph
 		}
 		enumLists(alphabets[alpha], maxLen, func(list []string) {
 			for _, sp := range []string{"yaml", "json"} {
@@ -929,6 +1159,9 @@ func run(c *core.Ctx) {
 							if !cands[acc[0]].URL {
 								c.Floor("get:urlless-entry")
 							}
+							if q == "" {
+								noteHyphenFloors(c, "get", cands, acc)
+							}
 						}
 					}
 					if len(list) == maxLen {
@@ -947,7 +1180,7 @@ func run(c *core.Ctx) {
 		queries   []string
 		jsonMax   int // the JSON spelling is run up to this length (same decoder behind both spellings)
 	}
-	for _, v := range []via{{"main", b.pull, []string{"yaml"}, queries["main"], 0}, {"urls", b.urls, []string{"yaml", "json"}, queries["urls"], 3}} {
+	for _, v := range []via{{"main", b.pull, []string{"yaml"}, queries["main"], 0}, {"urls", b.urls, []string{"yaml", "json"}, queries["urls"], 3}, {"hyph", b.hyphVia, []string{"yaml"}, queries["hyph"], 0}} {
 		if !only("pull") {
 			break
 		}
@@ -974,6 +1207,9 @@ func run(c *core.Ctx) {
 						}
 					} else if k == "" {
 						c.Floor("pull:url")
+						if acc, _ := expect(cands, q, true, false); q == "" && len(acc) > 0 {
+							noteHyphenFloors(c, "pull", cands, acc)
+						}
 					}
 					if k != "" {
 						report(c, caseSpec{Entry: "pull", Alpha: v.alpha, List: list, Spelling: sp, Query: q}, k)
@@ -986,7 +1222,7 @@ func run(c *core.Ctx) {
 	}
 
 	// Phase 3: Manager.Update -> resolver.Resolve -> Chart.lock
-	for _, v := range []via{{"main", b.resolve, []string{"yaml"}, queries["resolve"], 0}, {"urls", b.urls, []string{"yaml", "json"}, queries["resolve-urls"], 3}} {
+	for _, v := range []via{{"main", b.resolve, []string{"yaml"}, queries["resolve"], 0}, {"urls", b.urls, []string{"yaml", "json"}, queries["resolve-urls"], 3}, {"hyph", b.hyphVia, []string{"yaml"}, queries["resolve-hyph"], 0}} {
 		if !only("resolve") {
 			break
 		}
@@ -1034,6 +1270,59 @@ func run(c *core.Ctx) {
 					}
 				}
 			}
+		})
+	}
+
+	// Phase 3b: histories on one path. (a) aliasing: what a caller does to the
+	// object it got back must not show in a later load of the unchanged file.
+	if only("history") {
+		enumLists(alphabets["main"], b.alias, func(list []string) {
+			for _, sp := range []string{"yaml", "json"} {
+				if !c.NextMine() {
+					continue
+				}
+				c.Distinct("history|alias|" + sp + "|" + strings.Join(list, ","))
+				for _, m := range histMutators {
+					c.Eval(1)
+					cs := caseSpec{Entry: "history", Alpha: "main", List: list, Spelling: sp, Step: "mutate:" + m}
+					k, _, info := runHistory(cs)
+					c.Outcome("history:mutate:" + m + ":" + info)
+					if info == "changed" {
+						c.Floor("history:alias:" + m)
+					}
+					if k != "" {
+						report(c, cs, k)
+					} else if len(list) == b.alias && info == "changed" {
+						sample(map[string]any{"entry": "history/" + m, "spelling": sp, "file_entries": append([]string{}, list...), "second_load_equals_fresh_parse": true})
+					}
+				}
+			}
+		})
+		// (b) the file is replaced between two loads: every ordered pair of
+		// different files, mtime restored / newer / older
+		enumLists(alphabets["hist"], b.rw1, func(l1 []string) {
+			first := append([]string{}, l1...)
+			enumLists(alphabets["hist"], b.rw2, func(l2 []string) {
+				if strings.Join(first, ",") == strings.Join(l2, ",") {
+					return
+				}
+				if !c.NextMine() {
+					return
+				}
+				c.Distinct("history|rewrite|" + strings.Join(first, ",") + "|" + strings.Join(l2, ","))
+				for _, mode := range histModes {
+					c.Eval(1)
+					cs := caseSpec{Entry: "history", Alpha: "hist", List: first, Spelling: "yaml", Step: "rewrite:" + mode, List2: append([]string{}, l2...)}
+					k, _, info := runHistory(cs)
+					c.Outcome("history:rewrite:" + mode + ":" + info)
+					c.Floor("history:rewrite:" + info + ":" + mode)
+					if k != "" {
+						report(c, cs, k)
+					} else if info == "same-size" && mode == "same-mtime" {
+						sample(map[string]any{"entry": "history/rewrite", "first_file": first, "second_file": append([]string{}, l2...), "same_size_same_mtime": true, "second_load_reflects_second_file": true})
+					}
+				}
+			})
 		})
 	}
 
